@@ -98,18 +98,15 @@ def bandQuery (args : List String) : String :=
             | "idx" => do let f ← au 0; let d ← ai 1; pure (outStr toString (b.getUplinkChannelIndex (f % 4294967296) (d != 0)))
             | "idxdr" => do let f ← au 0; let d ← ai 1; pure (outStr toString (b.getUplinkChannelIndexForFrequencyDR (f % 4294967296) d))
             | "cflist" => do let v ← rest[0]?; pure (fmtCFList (b.getCFList (keyIndex v)))
-            | "plan" => do let dev ← (rest[0]?).bind parseIntList; pure (outStr planList (b.plan dev))
+            | "plan" => do let dev ← (rest[0]?).bind parseIntList; pure (planList (b.plan dev))
             | "apply" => do
                 let dev ← (rest[0]?).bind parseIntList; let pls ← (rest[1]?).bind parsePlans
                 pure (outStr intList (b.apply dev pls))
             | "planapply" => do
                 let dev ← (rest[0]?).bind parseIntList
-                match b.plan dev with
-                | .ok pls =>
-                  let enc := if pls.all (fun p => p.cntl.toNat ≤ 7) then "1" else "0"
-                  pure (planList pls ++ " " ++ enc ++ " " ++ outStr intList (b.apply dev pls))
-                | .err => pure "ERR"
-                | .panic => pure "PANIC"
+                let pls := b.plan dev
+                let enc := if pls.all (fun p => p.cntl.toNat ≤ 7) then "1" else "0"
+                pure (planList pls ++ " " ++ enc ++ " " ++ outStr intList (b.apply dev pls))
             | _ => none
           match res with
           | none => "BADOP band query"
